@@ -73,9 +73,4 @@ def check(tier):
 
 
 def replay(payload):
-    run = Run("C19", "quick")
-    case = payload.get("case") or {}
-    print("configuration:", json.dumps(case.get("cfg")))
-    print(case.get("asn", "")[:2000])
-    print("re-run: bin/check C19 --tier quick (the difference is a function of the configuration and the input above)")
-    return 1
+    return core.replay_by_rerun("C19", check, payload, keys=("cfg", "module", "asn"))
